@@ -96,7 +96,7 @@ def cases(tier, seed, info):
                 items.append(rng.choice(alphabet))
             else:
                 items.append(dict(cache='other', mod=rng.choice(['damaged', 'e500', 'm2c00', 'plain', 'badheader',
-                                                                 'bmcproc', 'lp', 'hidden', 'regmsg', 'regmsg', 'ilog', 'ilog']), beh='-',
+                                                                 'bmcproc', 'lp', 'hidden', 'regmsg', 'regmsg', 'regmsg', 'regmsg', 'ilog', 'ilog']), beh='-',
                                   plugins=rng.random() < .7))
         out.append(dict(kind='history', origin='random', seed=seed * 17 + k + 777, items=items))
     info['random_histories'] = m
